@@ -14,6 +14,8 @@ def main(argv):
     with open(shard_path) as fh:
         shard = json.load(fh)
     tier = shard["tier"]
+    from . import coverage
+    cov = coverage.start(env.REPO) if shard.get("coverage", True) else False
     if hasattr(mod, "setup"):
         mod.setup(tier)
     with open(out_path, "w") as out:
@@ -29,6 +31,8 @@ def main(argv):
             res["wall"] = round(time.time() - t0, 3)
             out.write(json.dumps(res, default=str) + "\n")
             out.flush()
+        if cov:
+            out.write(json.dumps({"coverage_record": coverage.hits()}) + "\n")
     return 0
 
 
